@@ -481,7 +481,8 @@ func (ex *Exec) globalAddr(g *ssa.Global) *value {
 
 func (ex *Exec) interpPkg(p *ssa.Package) bool {
 	path := p.Pkg.Path()
-	return strings.HasPrefix(path, "github.com/vulcand/oxy/v2") || path == "github.com/mailgun/multibuf"
+	return strings.HasPrefix(path, "github.com/vulcand/oxy/v2") || path == "github.com/mailgun/multibuf" ||
+		path == "encoding/base64" || path == "github.com/segmentio/fasthash/fnv1a"
 }
 
 func (ex *Exec) runInit(p *ssa.Package) {
